@@ -139,8 +139,33 @@ var errAlpha = []string{
 	"[TRACE]x",
 }
 
+// errAlphaBig: entries used only by the big-buffer instances (index 1000+i): lines a little shorter than a multi-megabyte buffer
+var errAlphaBig = []string{"JSONLEN:B-100", "TAGLEN:B-100", "JSONLEN:B/2+7", "LEN:B-3"}
+
+func errTok(i int) string {
+	if i >= 1000 {
+		return errAlphaBig[i-1000]
+	}
+	return errAlpha[i]
+}
+
 func errLine(tok string, B int) (content string, eol string) {
 	eol = "\n"
+	if strings.HasPrefix(tok, "JSONLEN:") || strings.HasPrefix(tok, "TAGLEN:") {
+		n := B - 100
+		if strings.HasSuffix(tok, "B/2+7") {
+			n = B/2 + 7
+		}
+		head, tail := `{"@level":"warn","@message":"big line","k":"v","blob":"`, `"}`
+		if strings.HasPrefix(tok, "TAGLEN:") {
+			head, tail = "[WARN] ", ""
+		}
+		b := make([]byte, n-len(head)-len(tail))
+		for i := range b {
+			b[i] = 'a' + byte(i%26)
+		}
+		return head + string(b) + tail, eol
+	}
 	if strings.HasPrefix(tok, "CRLF:") {
 		return tok[5:], "\r\n"
 	}
@@ -255,7 +280,7 @@ func init() {
 			var toks []string
 			if p["err"] != "" {
 				for _, f := range strings.Split(p["err"], ",") {
-					toks = append(toks, errAlpha[atoi(f)])
+					toks = append(toks, errTok(atoi(f)))
 				}
 			}
 			var errBytes []byte
@@ -472,6 +497,13 @@ func init() {
 				}
 				out = append(out, explore.Params{"B": B, "err": strings.Join(fs, ","), "nl": nl, "out": "", "onl": "1"})
 			}
+			// buffers of several megabytes (PluginLogBufferSize is the application's to choose) with lines a little shorter than
+			// the buffer, between ordinary lines: one record each, at the line's own level
+			for _, B := range []string{"8388608", "5000000"} {
+				for _, big := range []int{1000, 1001, 1002, 1003} {
+					add(B, []int{3, big, 12}, "1")
+				}
+			}
 			// a Stderr writer that fails one call (the 1st, 2nd or 3rd): the lines after it are still logged, nothing stalls
 			for _, we := range []string{"1", "2", "3"} {
 				for a := 0; a < n; a++ {
@@ -559,7 +591,7 @@ func descErr(s string) string {
 	}
 	var fs []string
 	for _, f := range strings.Split(s, ",") {
-		t := errAlpha[atoi(f)]
+		t := errTok(atoi(f))
 		if len(t) > 60 {
 			t = t[:60]
 		}
